@@ -4,6 +4,7 @@
 package c20
 
 import (
+	"bytes"
 	"encoding/json"
 	"fmt"
 	"os"
@@ -539,6 +540,18 @@ func check(d *doc) (fl *harness.Failure, nexp int, kinds []string) {
 	if len(extra) > 0 {
 		return harness.Failf("warning-unwarranted:"+kindOf(extra[0]), "reported but not warranted: %v\nreported: %v\nfile:\n%s", extra, texts, text), nexp, kinds
 	}
+	// the table that the library renders from a report (Warnings.WriteHTMLTo, which is what
+	// 'gedcom query -format html .Warnings' prints) is the same report: one row per warning
+	{
+		ws := document.Warnings()
+		var buf bytes.Buffer
+		if _, err := ws.WriteHTMLTo(&buf); err != nil {
+			return harness.Failf("html-report-fails", "Warnings.WriteHTMLTo: %v", err), nexp, kinds
+		}
+		if rows := strings.Count(buf.String(), "<tr") - strings.Count(buf.String(), "<thead"); rows != len(ws) {
+			return harness.Failf("html-report-rows", "the report has %d warnings, its HTML table has %d rows\nreported: %v\nfile:\n%s", len(ws), rows, texts, text), nexp, kinds
+		}
+	}
 	// asking again gives the same report (whatever was read or cached by the first call,
 	// by the views of the people and families, or by a similarity calculation in between)
 	for _, ind := range document.Individuals() {
@@ -817,6 +830,10 @@ func genDoc(t *rapid.T) *doc {
 		}
 		if rapid.IntRange(0, 5).Draw(t, "badDate"+p.ID) == 0 {
 			p.BadDates = []string{rapid.SampledFrom([]string{"sometime", "32 Jan 1900", "Foo 1900", "1900-01-01", "3 Sept 1900x"}).Draw(t, "badv"+p.ID)}
+			// (the same unparsable text a second time: two warnings that read exactly the same)
+			if rapid.IntRange(0, 2).Draw(t, "badTwice"+p.ID) == 1 {
+				p.BadDates = append(p.BadDates, p.BadDates[0])
+			}
 		}
 	}
 	for _, f := range d.Families {
